@@ -236,6 +236,28 @@ theorem stock_comparison_full_false :
                        ⟨100, 50, some 200, false, [.explicit, .reuse, .generate, .target, .shrink, .explain]⟩
                        (some ⟨100, 50, none, false, [.generate]⟩) true).maxExamples = 100 := by decide
 
+/-- **A configured rate limit (like every other setting) stays until a call names it again.**  For every history of
+    `configure(...)` calls on one schema, each setting holds the last value a call gave for it, or its initial value when
+    no call names it — in particular `configure(rate_limit=r)` followed by any calls that do not mention `rate_limit`
+    leaves the limiter of `r` in place. -/
+theorem configure_last_given_wins (s : SchemaCfg) (calls : List ConfigureCall) :
+    (calls.foldl configure s).rate = (lastGiven (·.rate) calls).getD s.rate ∧
+    (calls.foldl configure s).baseUrl = (lastGiven (·.baseUrl) calls).getD s.baseUrl ∧
+    (calls.foldl configure s).generation = (lastGiven (·.generation) calls).getD s.generation := by
+  induction calls generalizing s with
+  | nil => exact ⟨rfl, rfl, rfl⟩
+  | cons c rest ih =>
+    simp only [List.foldl_cons, lastGiven]
+    obtain ⟨h1, h2, h3⟩ := ih (configure s c)
+    refine ⟨?_, ?_, ?_⟩
+    · rw [h1]; cases lastGiven (·.rate) rest <;> simp [configure]
+    · rw [h2]; cases lastGiven (·.baseUrl) rest <;> simp [configure]
+    · rw [h3]; cases lastGiven (·.generation) rest <;> simp [configure]
+
+/-- non-vacuity: a limit, then a base URL: the limit is still there -/
+example : (([⟨none, none, some (some 10), none, none, none⟩, ⟨some (some 1), none, none, none, none, none⟩] : List ConfigureCall).foldl
+    configure ⟨none, none, none, some 0, some 0, none⟩).rate = some 10 := by decide
+
 end Settings
 
 end SV.Props.C12
